@@ -376,7 +376,7 @@ def uses_verus(pid):
 def inventory_rows(pid, repo, res):
     """I.* rows: structural facts recomputed from the source (DESIGN 2.6). Returns (rows, failed)."""
     import inventory
-    return inventory.rows(pid, repo, res)
+    return inventory.rows(pid, repo, res)          # (rows, failed, undecided-messages)
 
 
 def known_site_matches(k, row, msgs, res):
